@@ -270,6 +270,12 @@ pub fn draw(seed: u64, i: u64, tasks: &[Task], thorough: bool) -> Scenario {
         pool.push(("lp3".into(), "lp".into(), c));
     }
 
+    // rarely: a crowd of further programs (dozens of files in play; none of them can have a role unless it sorts first)
+    if !has_spec && rng.pct(3) {
+        for k in 0..(30 + rng.below(40)) {
+            pool.push((format!("crowd{k}"), "lp".into(), format!("crowd{k}(1).\n")));
+        }
+    }
     // names
     let upper_ok = rng.pct(15);
     let mut used = BTreeSet::new();
@@ -516,6 +522,19 @@ pub fn check_once(bins: &Binaries, s: &Scenario, env: &Env, reverse_creation: bo
                         }
                     }
                 }
+            }
+            // a proof outline that is given must be used: without it the canonical invocation has to come out differently
+            // (only in the universal direction: an outline may hold lemmas for one direction only)
+            let single_direction = s.options.windows(2).any(|w| w[0] == "--direction" && w[1] != "universal") || s.options.iter().any(|o| o.starts_with("--direction=") && o != "--direction=universal");
+            if verdict.is_none() && want.ok && cfiles.iter().any(|f| f.0 == "c.po") && s.equivalence == "external" && !single_direction {
+                let cout2 = scratch.lock().unwrap().fresh_dir("out");
+                let names_no_po: Vec<String> = names.iter().filter(|n| *n != "c.po").cloned().collect();
+                let without = verify(bins, &s.options, &names_no_po, &cdir, &cout2, &Env::plain());
+                runs += 1;
+                if without.ok && without.files == got.files {
+                    verdict = Some(("role-file-ignored".to_string(), format!("the saved problems are the same with and without the proof outline {:?}: the .po file plays no role", roles.proof_outline)));
+                }
+                let _ = fs::remove_dir_all(cout2);
             }
             let _ = fs::remove_dir_all(cdir);
             let _ = fs::remove_dir_all(cout);
